@@ -1,6 +1,6 @@
 #!/bin/bash
 # r4.sh <seed_name> [PROP] [tier]: apply the round-4 seed in its scratch worktree, run the check there (VERIF_REPO), revert
-name=$1; n=${name:1:2}; prop=${2:-C$n}; tier=${3:-quick}; wt=/tmp/w4_c$n
+name=$1; n=${name:1:2}; prop=${2:-C$n}; tier=${3:-quick}; wt=/tmp/w${ROUND:-5}_c$n
 git -C $wt checkout -q -- . ; git -C $wt apply $wt/_seed/$name/patch.diff || exit 2
 (cd /verif && VERIF_REPO=$wt ./check run $prop --tier $tier 2>&1 | grep -E "VIOLATION|KNOWN|UNDECIDED|tier=|Traceback|Error|CHECKER" | cut -c1-230)
 git -C $wt checkout -q -- . ; rm -f $wt/logica.db
